@@ -318,8 +318,17 @@ impl Process {
 
         let ctx = task.create_context();
         ctx.set_action(&action)?;
-        task.update(&ctx)?;
-        Ok(())
+        let ret = task.update(&ctx);
+        self.persist();
+        ret
+    }
+
+    /// write the current image of every task to the store: states, data and errors
+    /// written after a task's last event are otherwise kept in memory only
+    pub fn persist(&self) {
+        for task in self.tasks() {
+            let _ = self.runtime.cache().upsert(&task);
+        }
     }
 
     #[instrument()]
